@@ -1355,11 +1355,20 @@ impl World {
 				"C07-1 broadcast transaction fails script verification",
 				format!("node {} {} {}: {}", n, kind, txid, e),
 			),
-			Admit::NonFinal(e) => self.violate(
-				"C07",
-				"C07-1 broadcast transaction is not final",
-				format!("node {} {} {}: {}", n, kind, txid, e),
-			),
+			Admit::NonFinal(e) => {
+				// finality is judged against the chain the node saw when it handed the transaction
+				// over: a reorganisation between that moment and the (late) relay is not its fault
+				let handed = self.nodes[n].broadcaster.first_seen.lock().unwrap().get(&txid).cloned().unwrap_or(0);
+				if self.last_reorg_step >= handed && self.last_reorg_step > 0 {
+					self.out.bump("probe:relay_of_a_transaction_built_before_a_reorganisation");
+				} else {
+					self.violate(
+						"C07",
+						"C07-1 broadcast transaction is not final",
+						format!("node {} {} {}: {}", n, kind, txid, e),
+					)
+				}
+			},
 			Admit::NegativeFee(e) => self.violate(
 				"C07",
 				"C07-1 broadcast transaction creates money",
